@@ -689,6 +689,76 @@ func runC02(c *Ctx) {
 		if n == 0 {
 			c.S.OK("R5", "gcetcbendorsement.TdxPolicy:paths", c.pos(tp.Pos()), fmt.Sprintf("held on %d configurations", e.Configs), true)
 		}
+		// R5c: the collection looks at every endorsed row. A loop of TdxPolicy's region that puts a row's MRTD into the
+		// allow-list is left only when the rows are exhausted (at its header) or to refuse with an error: no break or
+		// successful return on the first match — an endorsement lists one MRTD per (RAM size, early-accept) pair, and
+		// each of them is a measurement a launch with that RAM size may report.
+		nColl := 0
+		for _, g := range unexportedRegion(tp) {
+			if g.Blocks == nil {
+				continue
+			}
+			for _, L := range naturalLoops(g) {
+				collects := false
+				for lb := range L.Body {
+					for _, in := range lb.Instrs {
+						var elem ssa.Value
+						switch x := in.(type) {
+						case *ssa.Call:
+							if bi, ok := x.Call.Value.(*ssa.Builtin); ok && bi.Name() == "append" && len(x.Call.Args) == 2 {
+								elem = x.Call.Args[1]
+							}
+						case *ssa.Store:
+							if _, ok := x.Addr.(*ssa.IndexAddr); ok {
+								elem = x.Val
+							}
+						}
+						if elem != nil && sl.Derives(elem, func(v ssa.Value) bool {
+							call, ok := v.(*ssa.Call)
+							if !ok {
+								return false
+							}
+							cal := call.Call.StaticCallee()
+							return cal != nil && cal.Name() == "GetMrtd"
+						}) {
+							collects = true
+						}
+					}
+				}
+				if !collects {
+					continue
+				}
+				// the innermost loop that holds the append is the one to look at
+				inner := true
+				for _, L2 := range naturalLoops(g) {
+					if L2 != L && len(L2.Body) < len(L.Body) && L.Body[L2.Header] {
+						for lb := range L2.Body {
+							for _, in := range lb.Instrs {
+								if call, ok := in.(*ssa.Call); ok {
+									if bi, ok := call.Call.Value.(*ssa.Builtin); ok && bi.Name() == "append" {
+										inner = false
+									}
+								}
+							}
+						}
+					}
+				}
+				if !inner {
+					continue
+				}
+				nColl++
+				ok, at := true, L.Header.Instrs[0].Pos()
+				for _, ed := range L.exitEdges() {
+					from, to := ed[0], ed[1]
+					if from == L.Header || isErrorExit(to) {
+						continue
+					}
+					ok, at = false, lastPos(from)
+				}
+				c.S.Check(ok, "R5", load.FuncName(g)+":collection exhaustive", c.pos(at), "the collecting loop is left only when the rows are exhausted or with an error", "the loop that collects the endorsed MRTDs can be left before all rows were looked at (a break or return after a match): a measurement the endorsement lists for the same RAM size (the early-accept variant) is missing from the allow-list and a launch that reports it is refused")
+			}
+		}
+		c.S.Floor("R5", "loops collecting endorsed MRTDs in TdxPolicy's region", 1, nColl)
 	}
 
 	// ---------------- R6: named configuration is forwarded ----------------
